@@ -2,6 +2,7 @@ pub mod bit;
 pub mod cached_rw_lock;
 pub mod indexed_priority_queue;
 pub mod priority_queue;
+pub mod rng;
 pub mod slot;
 pub mod sync_cell;
 pub mod task_set;
